@@ -10,6 +10,7 @@ into source text using only the *stated* precedence to place parentheses.
 What the statements leave open evaluates to the marker UNSPEC (the case is
 then not compared, only counted).
 """
+import copy
 
 
 UNSPEC_SEEN = [None]
@@ -557,6 +558,15 @@ class Machine:
         t = n[0]
         if t == "lit":
             return n[1]
+        if t == "raw":
+            # ('raw', source text, reference value): an implementation-side
+            # spelling the reference does not model (e.g. an input stream
+            # whose lines are the given list)
+            return copy.deepcopy(n[2])
+        if t == "rawerr":
+            # ('rawerr', source text): an operation that fails inside the
+            # host (overflow, ...) and must surface as the runtime 'ERROR'
+            raise err()
         if t == "list":
             out = []
             for e in n[1]:
@@ -1060,6 +1070,8 @@ def R(n, need, full):
         if n[2] is not None:
             s += " else " + if_body(n[2], full)
         return s
+    if t in ("raw", "rawerr"):
+        return n[1]
     if t == "for":
         _, names, what, it, body = n
         nm = names[0] if len(names) == 1 else "[" + ", ".join(names) + "]"
